@@ -203,6 +203,25 @@ for api in sorted(os.listdir(root)):
                 try:
                     m = importlib.import_module(name)
                     out["modules"][name] = gendefs.render_module(m)
+                    # every class a field is typed with must be the class the module exports under that
+                    # name (a structure emitted twice leaves fields typed with a shadowed class)
+                    import typing as _t
+                    def _leaves(tp):
+                        if dataclasses.is_dataclass(tp) and isinstance(tp, type):
+                            return [tp]
+                        return [x for a in _t.get_args(tp) if a is not Ellipsis for x in _leaves(a)]
+                    for c in [c for c in vars(m).values() if isinstance(c, type) and dataclasses.is_dataclass(c)
+                              and getattr(c, "__module__", None) == name]:
+                        for fld in dataclasses.fields(c):
+                            for leaf in _leaves(_t.get_type_hints(c)[fld.name]):
+                                if leaf.__module__ == name and getattr(m, leaf.__name__, None) is not leaf:
+                                    out.setdefault("shadowed", []).append(f"{name}:{c.__name__}.{fld.name} -> {leaf.__name__}")
+                    src = open(os.path.join(p, ver, f)).read()
+                    import re as _re
+                    names = _re.findall(r"^class (\w+)", src, flags=_re.M)
+                    dup = sorted({n for n in names if names.count(n) > 1})
+                    if dup:
+                        out.setdefault("shadowed", []).append(f"{name}: class statement repeated for {dup}")
                 except BaseException as e:
                     out["import_errors"][name] = f"{type(e).__name__}: {e}"
 # instances of the generated top-level classes through the real writer and reader
